@@ -4,6 +4,7 @@
 package p2p
 
 import (
+	"bytes"
 	"crypto/ecdsa"
 	"io"
 
@@ -77,3 +78,23 @@ const (
 	VerifDiscMsg            = discMsg
 	VerifBaseProtocolLength = baseProtocolLength
 )
+
+// VerifPeerHandle gives one base-protocol message to Peer.handle of a fresh peer without sub-protocols,
+// on the caller's goroutine (so that the harness can recover a panic).
+func VerifPeerHandle(code uint64, payload []byte) error {
+	local, remote := MsgPipe()
+	defer remote.Close()
+	defer local.Close()
+	p := newPeer(&conn{transport: verifTransport{local}}, nil)
+	return p.handle(Msg{Code: code, Size: uint32(len(payload)), Payload: bytes.NewReader(payload)})
+}
+
+// VerifReadProtocolHandshakeMsg gives one message to readProtocolHandshake.
+func VerifReadProtocolHandshakeMsg(code uint64, payload []byte) error {
+	_, err := readProtocolHandshake(verifOneMsg{Msg{Code: code, Size: uint32(len(payload)), Payload: bytes.NewReader(payload)}}, nil)
+	return err
+}
+
+type verifOneMsg struct{ m Msg }
+
+func (o verifOneMsg) ReadMsg() (Msg, error) { return o.m, nil }
